@@ -10,11 +10,18 @@
    and `GLeader j t' log` when j becomes leader holding `log`; leader_completeness says every GLeader that
    comes after a leader's GCommit has `log_at log idx = e`.
 
-   No conditional theorem (`~ known_class -> leader_completeness`) is proved: it needs the log-matching and
-   leader-completeness invariants of a repaired protocol.  What is machine-checked is the refutation, split by
-   cause; `classes h` = (double vote, stale vote counted, ack from diverged log, old-term commit, ack below voted term). *)
+   What is machine-checked:
+   * the refutation, split by cause; `classes h` = (double vote, stale vote counted, ack from diverged log,
+     old-term commit, ack below voted term), plus a THIRD log-replication class found while attempting the
+     conditional proof, `commit-without-quorum` (RaftLog.v);
+   * the CONDITIONAL THEOREM `C29_partial` for the code in /repo (rr_fixed): if none of the three log-replication
+     classes occurs, every entry committed by a leader of term t is in the log of every later leader of a HIGHER
+     term; `C29_partial_literal` gives the literal statement under one more hypothesis that excludes a harmless
+     situation (a stale candidate becomes Leader of an OLDER term after the commit), and
+     `C29_literal_refuted_by_late_leader` shows that this hypothesis cannot be dropped: the literal statement is
+     stronger than Raft's Leader Completeness and fails in a history that is fine. *)
 From Coq Require Import NArith List.
-From Agdb Require Import Raft RaftWitness RaftProofs RaftLog RaftLogProofs RaftLogMatch RaftLogLC.
+From Agdb Require Import Raft RaftWitness RaftProofs RaftLog RaftLogProofs RaftLogMatch RaftLogLC RaftLogCA.
 Import ListNotations.
 Open Scope N_scope.
 
@@ -89,9 +96,7 @@ Theorem C29_partial : forall size evs,
   forall h1 h2 i t idx e j t' log,
     c_hist (run rr_fixed size evs) = h1 ++ GCommit i true t idx e :: h2 -> In (GLeader j t' log) h2 -> t < t' ->
     log_at log idx = e.
-Proof.
-  intros size evs Hs A O Q. apply (RaftLogLC.leader_completeness_up_partial size evs Hs). constructor; auto.
-Qed.
+Proof. exact RaftLogCA.C29_partial_stmt. Qed.
 Print Assumptions C29_partial.
 
 (* The LITERAL full statement (`leader_completeness`: EVERY later GLeader, whatever its term) needs one more
@@ -105,9 +110,7 @@ Theorem C29_partial_literal : forall size evs,
   commit_noquorum_b rr_fixed size evs = false ->
   RaftLogLC.late_leader_b (c_hist (run rr_fixed size evs)) = false ->
   leader_completeness (c_hist (run rr_fixed size evs)).
-Proof.
-  intros size evs Hs A O Q L. apply (RaftLogLC.leader_completeness_partial size evs Hs); auto. constructor; auto.
-Qed.
+Proof. exact RaftLogCA.C29_partial_literal_stmt. Qed.
 Print Assumptions C29_partial_literal.
 
 (* and that hypothesis cannot be dropped: a 3-node history without any of the six classes in which node 1 becomes
@@ -119,10 +122,7 @@ Theorem C29_literal_refuted_by_late_leader :
     old_term_commit_b (c_hist (run rr_fixed size evs)) = false /\
     commit_noquorum_b rr_fixed size evs = false /\
     ~ leader_completeness (c_hist (run rr_fixed size evs)).
-Proof.
-  destruct RaftLogLC.late_leader_refutes_literal_C29 as (size & evs & Hs & [A O Q] & N).
-  exists size, evs. auto.
-Qed.
+Proof. exact RaftLogCA.C29_literal_refuted_stmt. Qed.
 Print Assumptions C29_literal_refuted_by_late_leader.
 
 (* non-vacuity: the fault-free 3-node history `wlog_ok` (node 0 elected, two entries replicated to and committed on
@@ -132,8 +132,9 @@ Example C29_partial_nonvacuous :
    old_term_commit_b (c_hist (run rr_fixed 3 RaftLogMatch.wlog_ok)) = false /\
    commit_noquorum_b rr_fixed 3 RaftLogMatch.wlog_ok = false) /\
   RaftLogLC.late_leader_b (c_hist (run rr_fixed 3 RaftLogMatch.wlog_ok)) = false /\
+  map n_commit (c_nodes (run rr_fixed 3 RaftLogMatch.wlog_ok)) = [2; 2; 2] /\
   leader_completeness_b (c_hist (run rr_fixed 3 RaftLogMatch.wlog_ok)) = true /\
   existsb (fun g => match g with GCommit _ true _ _ _ => true | _ => false end)
           (c_hist (run rr_fixed 3 RaftLogMatch.wlog_ok)) = true.
-Proof. destruct RaftLogLC.wlog_ok_hyps as ([A O Q] & R). split; auto. Qed.
+Proof. exact RaftLogCA.nonvacuous_stmt. Qed.
 Print Assumptions C29_partial_nonvacuous.
